@@ -49,3 +49,10 @@ TEXT["C05"] = {
     "note": "trusts the harness evaluator, inference and jet models (harness/src/{eval,ast,mjets}.rs)",
     "technique": "reference-model monitor (big-step evaluator) + frame-bounds hook over type-directed generated programs",
 }
+TEXT["C04"] = {
+    "level": ("Generated constraint graphs (ill-typed, cyclic, deeply shared, well-typed) under several construction orders, each compared with an independent unifier; decides acceptance, "
+              "principality and order-independence on every explored DAG/order. Deep-recursion crashes are caught by process-death attribution."),
+    "design_ref": "DESIGN.md section 5, C04",
+    "note": "trusts the harness's reference inference (harness/src/ast.rs: Infer)",
+    "technique": "reference-model monitor (independent first-order unifier) over generated DAGs x construction orders, with crash capture",
+}
